@@ -263,7 +263,8 @@ let run_op (g1 : bool) (dbg : bool) (op : str) (a : tok list) : str =
     in_m unit_res (pok_wrapper_verify k o c dbg { pok_scheme = scheme_of (arg 0); pok_u = sigpt_of (arg 1); pok_v = sigpt_of (arg 2) }
                      (pkpt_of (arg 3)) (bytes_of (arg 4)) (scalar_of (arg 5)))
   | "pokts_generate" ->
-    let now_ns = bign_of (arg 4) in
+    (* the clock value is reported by the implementation run; absent when it failed before reading the clock *)
+    let now_ns = (try bign_of (arg 4) with _ -> N0) in
     in_m (fun (r, w) -> (match r with
         | Ok (p : pok_ts) -> Printf.sprintf "ok:%s:%s:%s:%s" (scheme_name p.pts_proof.pok_scheme) (esig p.pts_proof.pok_u) (esig p.pts_proof.pok_v) (dec_of_n p.pts_timestamp)
         | Err e -> "err:" ^ err_name e) ^ Printf.sprintf ":draws=%d" (int_of_nat w))
@@ -316,6 +317,13 @@ let run_op (g1 : bool) (dbg : bool) (op : str) (a : tok list) : str =
   | "skenum_from_be" ->
     (match sk_enum_from_be_bytes k o (bytes_of (arg 0)) with
      | Some (cv, s) -> "some:" ^ hex_of_bytes (sk_enum_to_bytes k o cv s) | None -> "none")
+  | "sk_new" -> in_m (fun (x, w) -> Printf.sprintf "%s:draws=%d" (fmt_scalar x) (int_of_nat w)) (sk_new k o (ent_of [arg 0]) O)
+  | "challenge_new" -> in_m (fun (x, w) -> Printf.sprintf "%s:draws=%d" (fmt_scalar x) (int_of_nat w)) (sk_new k o (ent_of [arg 0]) O)
+  | "sk_split_tap" ->
+    in_m (fun (r, w) -> (match r with
+        | Ok l -> "ok:[" ^ String.concat "" (List.map (fun s -> " " ^ fmt_share s) l) ^ " ]"
+        | Err e -> "err:" ^ err_name e) ^ Printf.sprintf ":draws=%d" (int_of_nat w))
+      (sk_split_entropy k o (ent_of [arg 3]) (scalar_of (arg 0)) (nat_of_int (int_of (arg 1))) (nat_of_int (int_of (arg 2))) O)
   | "compute_y" -> in_m fmt_scalar (compute_y k o (sigpt_of (arg 0)) (bign_of (arg 1)))
   | _ -> "unknown-op:" ^ op
 
